@@ -780,7 +780,9 @@ func verifyProvenance(p *Prog, r *Report, rule string, which []string) {
 		for _, c := range vs {
 			a := c.Common().Args
 			okKey := dependsOn(a[0], func(x ssa.Value) bool { fv, _ := fieldOf(x); return fv != nil && refName(fv) == spec.keyField })
-			okHash := dependsOn(a[1], func(x ssa.Value) bool { _, _, ok := isCallTo(x, spec.hashM); return ok })
+			// the digest IS the body hash (value-preserving flow): ECDSA truncates a longer buffer to
+			// its leftmost 32 bytes, so "prefix || hash" would verify the prefix only
+			okHash := flowsFromCall(a[1], spec.hashM, 0)
 			okSig := dependsOn(a[2], func(x ssa.Value) bool { fv, _ := fieldOf(x); return fv != nil && refName(fv) == spec.sigField }) &&
 				dependsOn(a[3], func(x ssa.Value) bool { fv, _ := fieldOf(x); return fv != nil && refName(fv) == spec.sigField })
 			// every possibly-true return derives from this keys.Verify
